@@ -4,28 +4,43 @@
 //
 // Ops of one case (one tunnel):
 //
-//	open <route> <lst> <tgt> <early> <banner> <seedC> <seedT>
+//	open <route> <lst> <tgt> <early> <banner> <seedC> <seedT> [<timeoutMs>]
 //	    route: direct | via (second martian as downstream proxy) | viafake (raw downstream proxy that
 //	           answers "200 Connection established" and <banner> tunnel bytes in ONE write)
 //	    lst:   tcp | plain | tls   - what kind of net.Conn the proxy under test accepts
 //	    tgt:   tcp | plain         - what kind of net.Conn its dial returns
 //	    early: bytes the client sends in the same write as the CONNECT head
 //	    banner: bytes the target writes as soon as it has accepted
+//	    timeoutMs: Proxy.SetTimeout of the proxy under test (default 30 s, longer than any case)
+//	outlive <chunk> <seed>           the client writes <chunk> bytes every 40 ms until the tunnel is older than
+//	                                 the proxy's timeout (never idle): are they all forwarded? (open finding
+//	                                 c04:active-tunnel-cut-at-timeout; the model is told where the cut fell)
 //	unreach <route> <lst>            CONNECT to a port nobody listens on
-//	send <nC> <nT> <chunkseed>       client writes nC and target writes nT further bytes, concurrently
-//	close <c|t> <half|full>          that end finishes sending (CloseWrite) or closes
+//	send <nC> <nT> <chunkseed>       client writes nC and target writes nT further bytes, concurrently; waits
+//	                                 until both have been received (quiescence)
+//	push <nC> <nT> <chunkseed>       the same writes, but the op returns as soon as the writes have returned:
+//	                                 the bytes are still on their way (socket buffers, the proxy) when the
+//	                                 next op - typically a close - is executed
+//	rd <c|t> <eager|slow>            how that end's application reads from now on (slow: 8 KiB, then 1 ms pause)
+//	close <c|t> <half|full|abort>    that end finishes sending (CloseWrite), closes, or closes abortively
+//	                                 (SO_LINGER 0: the proxy sees ECONNRESET instead of EOF)
+//	sendgone <c|t> <n> <chunkseed>   that end keeps writing (>= 2 writes with pauses) although the other end
+//	                                 has closed: the proxy's writes towards the closed end fail
 //	end                              does the proxy release the tunnel (Proxy.Close returns)?
 //
 // Observation after every op, at quiescence: status, the total (length:fnv64a) received by the
 // target and by the client after the response head, who has seen end-of-stream, released or not.
+// An end that has closed fully or abortively is printed as "-" (it no longer reads).
 package c04
 
 import (
 	"bufio"
 	"crypto/tls"
+	"errors"
 	"fmt"
 	"net"
 	"net/url"
+	"os"
 	"strconv"
 	"strings"
 	"sync"
@@ -81,21 +96,34 @@ func (d digest) String() string { return fmt.Sprintf("%d:%016x", d.n, d.h) }
 // end is one end of the tunnel as the harness sees it: a connection, a reader goroutine that
 // digests everything received, and the digest of everything sent.
 type end struct {
-	mu     sync.Mutex
-	conn   net.Conn
-	rd     *bufio.Reader
-	recv   digest
-	eof    bool
-	rerr   error
-	sent   digest
-	seed   int
-	closed string // "", "half", "full"
+	mu        sync.Mutex
+	conn      net.Conn
+	raw       net.Conn // the TCP connection under conn (conn itself unless the client speaks TLS)
+	rd        *bufio.Reader
+	recv      digest
+	eof       bool
+	reset     bool // the read ended with a connection reset, not with end-of-stream
+	rerr      error
+	sent      digest
+	seed      int
+	closed    string // "", "half", "full", "abort"
+	slow      bool   // the application reads 8 KiB at a time and pauses 1 ms after each read
+	wroteGone bool   // has kept writing after the other end closed (op sendgone)
 }
+
+func (e *end) gone() bool { return e.closed == "full" || e.closed == "abort" }
 
 func (e *end) start() {
 	go func() {
-		buf := make([]byte, 64<<10)
+		big := make([]byte, 64<<10)
 		for {
+			e.mu.Lock()
+			slow := e.slow
+			e.mu.Unlock()
+			buf := big
+			if slow {
+				buf = big[:8<<10]
+			}
 			n, err := e.rd.Read(buf)
 			e.mu.Lock()
 			if n > 0 {
@@ -104,10 +132,14 @@ func (e *end) start() {
 			if err != nil {
 				e.eof = true
 				e.rerr = err
+				e.reset = errors.Is(err, syscall.ECONNRESET) || errors.Is(err, syscall.EPIPE)
 				e.mu.Unlock()
 				return
 			}
 			e.mu.Unlock()
+			if slow && n > 0 {
+				time.Sleep(time.Millisecond)
+			}
 		}
 	}()
 }
@@ -116,6 +148,29 @@ func (e *end) snap() (digest, bool) {
 	e.mu.Lock()
 	defer e.mu.Unlock()
 	return e.recv, e.eof
+}
+
+func (e *end) wasReset() (bool, error) {
+	e.mu.Lock()
+	defer e.mu.Unlock()
+	return e.reset, e.rerr
+}
+
+func (e *end) setSlow(v bool) {
+	e.mu.Lock()
+	e.slow = v
+	e.mu.Unlock()
+}
+
+// abort closes the connection abortively: SO_LINGER 0, so that the kernel sends RST.
+func (e *end) abort() {
+	if tc, ok := e.raw.(*net.TCPConn); ok {
+		tc.SetLinger(0)
+	}
+	e.raw.Close()
+	if e.conn != e.raw {
+		e.conn.Close()
+	}
 }
 
 // write sends n further pattern bytes in the chunks chosen by r.
@@ -164,6 +219,28 @@ func waitUntil(d time.Duration, cond func() bool) bool {
 		}
 		if time.Now().After(deadline) {
 			return false
+		}
+		time.Sleep(300 * time.Microsecond)
+	}
+}
+
+// waitQuiet waits until cond holds; it gives up when progress() has not changed for `bound` (or after
+// hardCap): a slow reader or a loaded machine only delays the verdict as long as bytes keep moving.
+const hardCap = 90 * time.Second
+
+func waitQuiet(cond func() bool, progress func() int) bool {
+	start := time.Now()
+	last, lastAt := progress(), start
+	for {
+		if cond() {
+			return true
+		}
+		now := time.Now()
+		if p := progress(); p != last {
+			last, lastAt = p, now
+		}
+		if now.Sub(lastAt) > bound || now.Sub(start) > hardCap {
+			return cond()
 		}
 		time.Sleep(300 * time.Microsecond)
 	}
@@ -222,6 +299,8 @@ type ex struct {
 	warning   bool
 	opened    bool
 	released  string
+	openedAt  time.Time     // just before the client connected (handleLoop arms its deadline after Accept)
+	timeout   time.Duration // Proxy.SetTimeout of the proxy under test
 }
 
 // After maxFailures confirmed oracle failures the remaining generated cases of the main pass are
@@ -281,13 +360,13 @@ func (e *ex) listen() (net.Listener, bool) {
 	return l, true
 }
 
-func (e *ex) newProxy(lst, tgt string, down string) (string, bool) {
+func (e *ex) newProxy(lst, tgt string, down string, timeout time.Duration) (string, bool) {
 	l, ok := e.listen()
 	if !ok {
 		return "", false
 	}
 	p := martian.NewProxy()
-	p.SetTimeout(idleTimeout)
+	p.SetTimeout(timeout)
 	if down != "" {
 		p.SetDownstreamProxy(&url.URL{Host: down})
 	}
@@ -423,26 +502,33 @@ func (e *ex) obs() string {
 		}
 		return "0"
 	}
-	return fmt.Sprintf("t=%s c=%s teof=%s ceof=%s", td, cd, b(teof), b(ceof))
+	ts, cs := td.String(), cd.String()
+	if e.t != nil && e.t.gone() {
+		ts = "-"
+	}
+	if e.c != nil && e.c.gone() {
+		cs = "-"
+	}
+	return fmt.Sprintf("t=%s c=%s teof=%s ceof=%s", ts, cs, b(teof), b(ceof))
 }
 
 // dialClient connects to the proxy under test the way its listener expects.
-func dialClient(addr, lst string) (net.Conn, error) {
+func dialClient(addr, lst string) (conn, raw net.Conn, err error) {
 	c, err := net.DialTimeout("tcp", addr, 5*time.Second)
 	if err != nil {
-		return nil, err
+		return nil, nil, err
 	}
 	if lst == "tls" {
 		tc := tls.Client(c, &tls.Config{InsecureSkipVerify: true})
 		c.SetDeadline(time.Now().Add(5 * time.Second))
 		if err := tc.Handshake(); err != nil {
 			c.Close()
-			return nil, err
+			return nil, nil, err
 		}
 		c.SetDeadline(time.Time{})
-		return tc, nil
+		return tc, c, nil
 	}
-	return c, nil
+	return c, c, nil
 }
 
 // readHead reads the response head; the reader keeps whatever followed it.
@@ -471,24 +557,32 @@ func readHead(c net.Conn, br *bufio.Reader) (status int, warning bool, err error
 	}
 }
 
+// checkDir: `to` must have received exactly what `from` has sent (skipped once `to` no longer reads).
+func (e *ex) checkDir(what string, from, to *end, dir, fromName, toName string) core.Result {
+	if to.gone() || from.wroteGone {
+		// the receiver no longer reads, or this direction has already been found dead (sendgone, outlive)
+		return core.Result{}
+	}
+	got, _ := to.snap()
+	if got == from.sent {
+		return core.Result{}
+	}
+	sig := "c04:" + dir + "-not-delivered"
+	if got.n >= from.sent.n || got.n > 0 && got.h != prefixHash(from.seed, got.n) {
+		sig = "c04:" + dir + "-corrupt"
+	}
+	how := ""
+	if rst, err := to.wasReset(); rst {
+		how = fmt.Sprintf(" and its read ended with a connection reset (%v)", err)
+	}
+	return fail(sig, "%s: %s has sent %s but the %s has received %s%s, %v after the tunnel went quiet", what, fromName, from.sent, toName, got, how, bound)
+}
+
 func (e *ex) checkDelivery(what string) core.Result {
-	td, _ := e.t.snap()
-	cd, _ := e.c.snap()
-	if td != e.c.sent {
-		sig := "c04:c2t-not-delivered"
-		if td.n >= e.c.sent.n || td.n > 0 && td.h != prefixHash(e.c.seed, td.n) {
-			sig = "c04:c2t-corrupt"
-		}
-		return fail(sig, "%s: client has sent %s but the target has received %s %v after the tunnel went quiet", what, e.c.sent, td, bound)
+	if r := e.checkDir(what, e.c, e.t, "c2t", "client", "target"); r.Fail != "" {
+		return r
 	}
-	if cd != e.t.sent {
-		sig := "c04:t2c-not-delivered"
-		if cd.n >= e.t.sent.n || cd.n > 0 && cd.h != prefixHash(e.t.seed, cd.n) {
-			sig = "c04:t2c-corrupt"
-		}
-		return fail(sig, "%s: target has sent %s but the client has received %s %v after the tunnel went quiet", what, e.t.sent, cd, bound)
-	}
-	return core.Result{}
+	return e.checkDir(what, e.t, e.c, "t2c", "target", "client")
 }
 
 func prefixHash(seed, n int) uint64 {
@@ -501,12 +595,28 @@ func prefixHash(seed, n int) uint64 {
 	return d.h
 }
 
+// waitDelivered waits until every end that still reads has received as many bytes as were sent to
+// it (or its stream has ended), as long as bytes keep moving.
 func (e *ex) waitDelivered() {
-	waitUntil(bound, func() bool {
-		td, _ := e.t.snap()
-		cd, _ := e.c.snap()
-		return td.n >= e.c.sent.n && cd.n >= e.t.sent.n
-	})
+	waitQuiet(func() bool {
+		td, teof := e.t.snap()
+		cd, ceof := e.c.snap()
+		return (e.t.gone() || teof || td.n >= e.c.sent.n) && (e.c.gone() || ceof || cd.n >= e.t.sent.n)
+	}, e.moved)
+}
+
+// waitReceived waits until `to` has received everything `from` has sent.
+func (e *ex) waitReceived(from, to *end) {
+	waitQuiet(func() bool {
+		d, eof := to.snap()
+		return eof || d.n >= from.sent.n
+	}, e.moved)
+}
+
+func (e *ex) moved() int {
+	td, _ := e.t.snap()
+	cd, _ := e.c.snap()
+	return td.n + cd.n
 }
 
 func atoi(s string) int { n, _ := strconv.Atoi(s); return n }
@@ -530,14 +640,21 @@ func (e *ex) do(op string) core.Result {
 			}
 			route, lst, tgt = f[1], f[2], "tcp"
 		} else {
-			if len(f) != 8 {
+			if len(f) != 8 && len(f) != 9 {
 				return core.Result{Impl: "bad-op"}
 			}
 			route, lst, tgt = f[1], f[2], f[3]
 			early, banner, seedC, seedT = atoi(f[4]), atoi(f[5]), atoi(f[6]), atoi(f[7])
 		}
+		e.timeout = idleTimeout
+		if len(f) == 9 && atoi(f[8]) >= 500 && atoi(f[8]) <= 30000 {
+			e.timeout = time.Duration(atoi(f[8])) * time.Millisecond
+		}
 		core.Count("route:" + route)
 		core.Count("lst:" + lst)
+		if !unreach {
+			core.Count("kind:" + route + "/" + lst + "/" + tgt)
+		}
 		// target
 		tl, ok := e.listen()
 		if !ok {
@@ -562,7 +679,7 @@ func (e *ex) do(op string) core.Result {
 		down := ""
 		switch route {
 		case "via":
-			down, ok = e.newProxy("tcp", "tcp", "")
+			down, ok = e.newProxy("tcp", "tcp", "", idleTimeout)
 		case "viafake":
 			down, ok = e.fakeProxy(banner)
 		case "direct":
@@ -572,16 +689,17 @@ func (e *ex) do(op string) core.Result {
 		if !ok {
 			return core.Result{Impl: "setup-failed", Fail: "listen failed", Sig: "c04:setup"}
 		}
-		paddr, ok := e.newProxy(lst, tgt, down)
+		paddr, ok := e.newProxy(lst, tgt, down, e.timeout)
 		if !ok {
 			return core.Result{Impl: "setup-failed", Fail: "listen failed", Sig: "c04:setup"}
 		}
-		cc, err := dialClient(paddr, lst)
+		e.openedAt = time.Now()
+		cc, craw, err := dialClient(paddr, lst)
 		if err != nil {
 			return core.Result{Impl: "setup-failed", Fail: "client dial: " + err.Error(), Sig: "c04:setup"}
 		}
 		e.conns = append(e.conns, cc)
-		e.c.conn, e.c.rd = cc, bufio.NewReaderSize(cc, 64<<10)
+		e.c.conn, e.c.raw, e.c.rd = cc, craw, bufio.NewReaderSize(cc, 64<<10)
 		// CONNECT head and early data in ONE write
 		msg := []byte("CONNECT " + taddr + " HTTP/1.1\r\nHost: " + taddr + "\r\n\r\n")
 		eb := make([]byte, early)
@@ -598,7 +716,7 @@ func (e *ex) do(op string) core.Result {
 			select {
 			case tc := <-accepted:
 				e.conns = append(e.conns, tc)
-				e.t.conn, e.t.rd = tc, bufio.NewReaderSize(tc, 64<<10)
+				e.t.conn, e.t.raw, e.t.rd = tc, tc, bufio.NewReaderSize(tc, 64<<10)
 				bb := make([]byte, banner)
 				for i := range bb {
 					bb[i] = pat(seedT, i)
@@ -651,15 +769,16 @@ func (e *ex) do(op string) core.Result {
 		core.Count("outcome:tunnel")
 		return core.Result{Impl: impl}
 
-	case "send":
+	case "send", "push":
 		if !e.opened || len(f) != 4 {
 			return core.Result{Impl: "bad-op"}
 		}
 		nC, nT := atoi(f[1]), atoi(f[2])
-		if e.c.closed != "" || e.t.closed == "full" {
+		// nothing is sent by an end that has finished sending, nor (here) towards an end that is gone
+		if e.c.closed != "" || e.t.gone() {
 			nC = 0
 		}
-		if e.t.closed != "" || e.c.closed == "full" {
+		if e.t.closed != "" || e.c.gone() {
 			nT = 0
 		}
 		r := core.NewRand(uint64(atoi(f[3])))
@@ -667,63 +786,217 @@ func (e *ex) do(op string) core.Result {
 		errs := make(chan error, 2)
 		go func() { errs <- e.c.write(nC, rc) }()
 		go func() { errs <- e.t.write(nT, rt) }()
-		for i := 0; i < 2; i++ {
+		// a write may take as long as a slow reader needs; it is blocked when no byte has moved for 10 s
+		last, lastAt := e.moved(), time.Now()
+		for i := 0; i < 2; {
 			select {
 			case err := <-errs:
+				i++
 				if err != nil {
 					return core.Result{Impl: "write-failed " + e.obs(), Fail: "a write into the open tunnel failed: " + err.Error(), Sig: "c04:write-failed"}
 				}
-			case <-time.After(20 * time.Second):
-				return core.Result{Impl: "write-blocked " + e.obs(), Fail: "a write into the open tunnel blocked for 20 s (the proxy stopped reading)", Sig: "c04:write-blocked"}
+			case <-time.After(50 * time.Millisecond):
+				if m := e.moved(); m != last {
+					last, lastAt = m, time.Now()
+				} else if time.Since(lastAt) > 10*time.Second {
+					return core.Result{Impl: "write-blocked " + e.obs(), Fail: "a write into the open tunnel has been blocked for 10 s without a byte arriving anywhere (the proxy stopped reading)", Sig: "c04:write-blocked"}
+				}
 			}
 		}
 		if nC > 0 && nT > 0 {
-			core.Count("send:both")
+			core.Count(f[0] + ":both")
 		} else if nC+nT > 0 {
-			core.Count("send:one")
+			core.Count(f[0] + ":one")
 		}
 		if nC+nT >= 1<<20 {
-			core.Count("send:>=1MiB")
+			core.Count(f[0] + ":>=1MiB")
+		}
+		if e.c.slow && nT >= 1<<20 || e.t.slow && nC >= 1<<20 {
+			core.Count(f[0] + ":>=1MiB-to-slow-reader")
+		}
+		if f[0] == "push" {
+			// still on its way: nothing about delivery is observed (or compared) before the next op
+			return core.Result{Impl: "pushed"}
 		}
 		e.waitDelivered()
 		res := e.checkDelivery("send")
 		res.Impl = e.obs()
 		return res
 
-	case "close":
-		if !e.opened || len(f) != 3 {
+	case "outlive":
+		if !e.opened || len(f) != 3 || atoi(f[1]) < 1 || atoi(f[1]) > 4096 {
 			return core.Result{Impl: "bad-op"}
 		}
-		who, other, name, oname := e.c, e.t, "client", "target"
-		if f[1] == "t" {
-			who, other, name, oname = e.t, e.c, "target", "client"
+		if e.c.closed != "" || e.t.closed != "" || e.timeout >= idleTimeout {
+			return core.Result{Impl: "bad-op"}
 		}
-		if who.closed == "full" || who.closed == f[2] {
+		core.Count("outlive")
+		chunk := atoi(f[1])
+		var werr error
+		before := e.c.sent.n
+		for time.Since(e.openedAt) < e.timeout+400*time.Millisecond {
+			b := make([]byte, chunk)
+			for j := range b {
+				b[j] = pat(e.c.seed, e.c.sent.n+j)
+			}
+			e.c.conn.SetWriteDeadline(time.Now().Add(5 * time.Second))
+			if _, werr = e.c.conn.Write(b); werr != nil {
+				break
+			}
+			e.c.sent.add(b)
+			time.Sleep(40 * time.Millisecond)
+		}
+		e.waitDelivered()
+		td, teof := e.t.snap()
+		wrote := e.c.sent.n - before
+		// the model is told how many of these bytes were forwarded before the deadline fell
+		res := core.Result{ModelOp: fmt.Sprintf("outlive %d %d", wrote, td.n-before)}
+		if td.n < e.c.sent.n || teof || werr != nil {
+			e.c.wroteGone = true // the client→target copy has ended without the client closing
+		}
+		res.Impl = e.obs()
+		if td != e.c.sent || teof || werr != nil {
+			res.Sig = "c04:active-tunnel-cut-at-timeout"
+			res.Fail = fmt.Sprintf("the client wrote %d bytes, %d every 40 ms for %v (never idle; its writes ended with %v); the target received %d of them, end-of-stream=%v: "+
+				"the tunnel was cut when it became older than Proxy.SetTimeout(%v) - the serving loop's absolute deadline on the client connection is not an idle timeout",
+				wrote, chunk, time.Since(e.openedAt).Round(time.Millisecond), werr, td.n-before, teof, e.timeout)
+		}
+		return res
+
+	case "rd":
+		if !e.opened || len(f) != 3 || (f[1] != "c" && f[1] != "t") || (f[2] != "eager" && f[2] != "slow") {
+			return core.Result{Impl: "bad-op"}
+		}
+		who := e.c
+		if f[1] == "t" {
+			who = e.t
+		}
+		who.setSlow(f[2] == "slow")
+		core.Count("rd:" + f[1] + ":" + f[2])
+		return core.Result{Impl: "rd"}
+
+	case "sendgone":
+		if !e.opened || len(f) != 4 || (f[1] != "c" && f[1] != "t") {
+			return core.Result{Impl: "bad-op"}
+		}
+		who, other := e.c, e.t
+		if f[1] == "t" {
+			who, other = e.t, e.c
+		}
+		n := atoi(f[2])
+		if who.closed != "" || !other.gone() || n < 8 {
+			return core.Result{Impl: "bad-op"}
+		}
+		core.Count("sendgone:" + f[1] + ":after-" + other.closed)
+		// keep writing, with pauses, until our own write fails: a proxy's first write towards a closed
+		// peer may still succeed (the kernel answers it with RST), the next one fails, the copy ends, the
+		// tunnel is released and our connection closed - once per proxy on the route. No fixed number
+		// of writes: on a loaded machine it just takes longer. Give up after the bound.
+		off, t0, sawErr := who.sent.n, time.Now(), false
+		for time.Since(t0) < bound {
+			b := make([]byte, n/8)
+			for j := range b {
+				b[j] = pat(who.seed, off+j)
+			}
+			who.conn.SetWriteDeadline(time.Now().Add(bound))
+			if _, err := who.conn.Write(b); err != nil {
+				sawErr = true // the proxy has closed our connection: the tunnel is gone, as it should be
+				break
+			}
+			who.sent.add(b)
+			off += len(b)
+			time.Sleep(4 * time.Millisecond)
+		}
+		if !sawErr {
+			core.Count("sendgone:writes-never-failed")
+		}
+		who.wroteGone = true
+		return core.Result{Impl: "gone"}
+
+	case "close":
+		if !e.opened || len(f) != 3 || (f[1] != "c" && f[1] != "t") || (f[2] != "half" && f[2] != "full" && f[2] != "abort") {
+			return core.Result{Impl: "bad-op"}
+		}
+		who, other, name, oname, dir := e.c, e.t, "client", "target", "c2t"
+		if f[1] == "t" {
+			who, other, name, oname, dir = e.t, e.c, "target", "client", "t2c"
+		}
+		if who.gone() || who.closed == f[2] {
 			return core.Result{Impl: e.obs()}
 		}
 		core.Count("close:" + f[1] + ":" + f[2])
-		if f[2] == "half" {
+		first := who.closed == ""
+		inflight := 0 // bytes `who` has written that `other` has not yet received when `who` closes
+		if d, _ := other.snap(); !other.gone() && who.sent.n > d.n {
+			inflight = who.sent.n - d.n
+		}
+		switch f[2] {
+		case "half":
 			if cw, ok := who.conn.(interface{ CloseWrite() error }); ok {
 				cw.CloseWrite()
 			}
-		} else {
+		case "full":
+			// a graceful close: the application has read what was sent to it (closing with unread
+			// bytes would be an abortive close)
+			e.waitReceived(other, who)
 			who.conn.Close()
 			waitUntil(bound, func() bool { _, eof := who.snap(); return eof })
+		case "abort":
+			// what `who` has written is allowed to arrive first, so that what the other end has
+			// received is determined; what is on its way TOWARDS `who` is not waited for
+			if !other.gone() {
+				e.waitReceived(who, other)
+			}
+			inflight = 0
+			who.abort()
+			waitUntil(bound, func() bool { _, eof := who.snap(); return eof })
 		}
-		first := who.closed == ""
 		who.closed = f[2]
+		if inflight > 0 && first {
+			core.Count("close:" + f[2] + ":with-bytes-in-flight")
+			if inflight >= 1<<20 {
+				core.Count("close:" + f[2] + ":with>=1MiB-in-flight")
+			}
+			if other.closed != "" {
+				core.Count("close:final:with-bytes-in-flight")
+			}
+		}
 		if !first {
+			e.waitDelivered()
 			return core.Result{Impl: e.obs()}
 		}
-		okEOF := waitUntil(bound, func() bool { _, eof := other.snap(); return eof })
+		// the copy from `who` ends: the other end must see end-of-stream, after everything sent before
+		okEOF := other.gone() || waitQuiet(func() bool { _, eof := other.snap(); return eof }, e.moved)
+		e.waitDelivered()
 		impl := e.obs()
-		if r := e.checkDelivery("close"); r.Fail != "" && other.closed != "full" {
+		if f[2] == "abort" {
+			if !okEOF {
+				return core.Result{Impl: impl, Sig: "c04:eof-not-propagated-to-" + oname,
+					Fail: fmt.Sprintf("the %s closed abortively (connection reset) but the %s has not seen the end of the stream %v later (idle timeout %v)", name, oname, bound, idleTimeout)}
+			}
+			return core.Result{Impl: impl}
+		}
+		if r := e.checkDir("close", who, other, dir, name, oname); r.Fail != "" {
 			r.Impl = impl
 			return r
 		}
-		if !okEOF && other.closed != "full" {
+		if !who.gone() {
+			odir := "t2c"
+			if dir == "t2c" {
+				odir = "c2t"
+			}
+			if r := e.checkDir("close", other, who, odir, oname, name); r.Fail != "" {
+				r.Impl = impl
+				return r
+			}
+		}
+		if !okEOF {
 			return core.Result{Impl: impl, Sig: "c04:eof-not-propagated-to-" + oname,
 				Fail: fmt.Sprintf("the %s finished sending (%s close) but the %s has not seen end-of-stream %v later (idle timeout %v)", name, f[2], oname, bound, idleTimeout)}
+		}
+		if rst, err := other.wasReset(); rst && !other.gone() && !other.wroteGone {
+			return core.Result{Impl: impl, Sig: "c04:reset-instead-of-eof-at-" + oname,
+				Fail: fmt.Sprintf("the %s finished sending (%s close): the %s's stream ended with a connection reset (%v), not with end-of-stream", name, f[2], oname, err)}
 		}
 		return core.Result{Impl: impl}
 
@@ -731,7 +1004,8 @@ func (e *ex) do(op string) core.Result {
 		if !e.opened {
 			return core.Result{Impl: "end n/a"}
 		}
-		if e.c.closed == "" || e.t.closed == "" {
+		// each copy has ended: its source closed, or it ran into a write error towards a closed end
+		if (e.c.closed == "" && !e.c.wroteGone) || (e.t.closed == "" && !e.t.wroteGone) {
 			return core.Result{Impl: "end open"}
 		}
 		done := make(chan bool, len(e.proxies))
@@ -754,6 +1028,11 @@ func (e *ex) do(op string) core.Result {
 		}
 		core.Count("end:" + e.released)
 		if e.released != "released" {
+			if e.c.closed == "" || e.t.closed == "" {
+				// an end that is still open although its peer is gone: the statement does not say when
+				// the proxy gives up on it; the model does (write error ends the copy) - compared only
+				return core.Result{Impl: "end blocked"}
+			}
 			return core.Result{Impl: "end blocked", Sig: "c04:not-released",
 				Fail: fmt.Sprintf("both ends have closed, but Proxy.Close() did not return within %v: a tunnel handler still holds its connections", bound)}
 		}
@@ -774,6 +1053,10 @@ func (e *ex) Do(op string) core.Result {
 		}
 		return r
 	}
+	if r.Sig == "c04:active-tunnel-cut-at-timeout" {
+		// not a bound-dependent verdict (the op runs until the deadline has certainly passed); an open known finding
+		return r
+	}
 	if confirmed[r.Sig] >= 2 { // this class has already reproduced 3 of 3 twice in this run: not a flake
 		totalFailures++
 		return r
@@ -790,6 +1073,8 @@ func (e *ex) Do(op string) core.Result {
 		x.Close()
 		if last.Fail == "" || last.Sig != r.Sig {
 			core.Count("unconfirmed-timing-failure")
+			core.Count("unconfirmed-timing-failure:" + r.Sig)
+			fmt.Fprintf(os.Stderr, "c04: unconfirmed (did not reproduce in run %d of 3): %s: %s\n  ops: %s\n", i+2, r.Sig, r.Fail, strings.Join(e.ops, " ; "))
 			last.Fail, last.Sig = "", ""
 			return last
 		}
@@ -841,35 +1126,145 @@ func genSize(r *core.Rand, tier string) int {
 	}
 }
 
-func genCase(r *core.Rand, tier string, route, lst, tgt string, early, banner int) []string {
-	ops := []string{fmt.Sprintf("open %s %s %s %d %d %d %d", route, lst, tgt, early, banner, r.Intn(256), r.Intn(256))}
-	for i, n := 0, r.Range(1, 4); i < n; i++ {
-		nC, nT := genSize(r, tier), genSize(r, tier)
+// genBig: a size that exceeds every buffer on the path (socket buffers, the proxy's 32 KiB), so that
+// most of it is still on its way when the writer's Write returns.
+func genBig(r *core.Rand, tier string) int {
+	switch r.Intn(4) {
+	case 0:
+		return r.Range(200000, 600000)
+	case 1:
+		return 1 << 20
+	case 2:
+		if tier == "thorough" && r.Chance(1, 3) {
+			return 4 << 20
+		}
+		return 2 << 20
+	default:
+		return r.Range(600000, 3<<20)
+	}
+}
+
+// traffic is one send/push op; `from` restricts the direction ("c", "t" or "" for both).
+func traffic(r *core.Rand, tier, from string, push, big bool) string {
+	nC, nT := genSize(r, tier), genSize(r, tier)
+	if big {
+		if r.Bool() || from == "c" {
+			nC = genBig(r, tier)
+		}
+		if nC < 200000 || from == "t" {
+			nT = genBig(r, tier)
+		}
+	}
+	switch {
+	case from == "c":
+		nT = 0
+	case from == "t":
+		nC = 0
+	default:
 		switch r.Intn(5) {
 		case 0:
 			nC = 0
 		case 1:
 			nT = 0
 		}
-		ops = append(ops, fmt.Sprintf("send %d %d %d", nC, nT, r.Intn(1<<30)))
+	}
+	op := "send"
+	if push {
+		op = "push"
+	}
+	return fmt.Sprintf("%s %d %d %d", op, nC, nT, r.Intn(1<<30))
+}
+
+// genCase: one tunnel. Schedule classes (all combined freely):
+//   - concurrent traffic both ways with random chunking/pauses, eager or slow readers on either end;
+//   - either end finishes first, by CloseWrite, Close or an abortive close (RST), with or without
+//     bytes still in flight in either direction at that moment;
+//   - traffic in the remaining direction after a half-close, again possibly left in flight (up to
+//     MiBs, towards a slow reader) when the second end closes: the proxy's final close of both
+//     connections must not lose it;
+//   - an end that keeps writing towards a peer that is gone (the proxy's write fails).
+func genCase(r *core.Rand, tier string, route, lst, tgt string, early, banner int, class string) []string {
+	ops := []string{fmt.Sprintf("open %s %s %s %d %d %d %d", route, lst, tgt, early, banner, r.Intn(256), r.Intn(256))}
+	slow := map[string]bool{}
+	maybeSlow := func(p int) {
+		for _, w := range []string{"c", "t"} {
+			if !slow[w] && r.Chance(1, p) {
+				ops = append(ops, "rd "+w+" slow")
+				slow[w] = true
+			} else if slow[w] && r.Chance(1, 3) {
+				ops = append(ops, "rd "+w+" eager")
+				slow[w] = false
+			}
+		}
+	}
+	rare := 24 // how rarely another class pushes MiBs as well
+	if tier == "thorough" {
+		rare = 8
+	}
+	inflight := class == "inflight" // large amounts in flight at the closes, slow readers likely
+	abortive := class == "abort"
+	if inflight {
+		maybeSlow(3)
+	} else {
+		maybeSlow(8)
+	}
+	for i, n := 0, r.Range(0, 3); i < n; i++ {
+		ops = append(ops, traffic(r, tier, "", false, false))
 	}
 	first, second := "c", "t"
 	if r.Bool() {
 		first, second = "t", "c"
 	}
 	how1 := r.Pick("half", "half", "full")
-	ops = append(ops, "close "+first+" "+how1)
-	if how1 == "half" && r.Chance(2, 3) {
-		// the other direction stays usable after a half-close
-		if second == "t" {
-			ops = append(ops, fmt.Sprintf("send 0 %d %d", genSize(r, tier), r.Intn(1<<30)))
-		} else {
-			ops = append(ops, fmt.Sprintf("send %d 0 %d", genSize(r, tier), r.Intn(1<<30)))
+	if abortive || r.Chance(1, 10) {
+		how1 = "abort"
+	}
+	if inflight {
+		maybeSlow(2)
+		if how1 == "full" && r.Bool() {
+			how1 = "half"
 		}
 	}
-	ops = append(ops, "close "+second+" "+r.Pick("half", "full"))
+	// bytes in flight when the first end closes (from it if it closes gracefully, towards it if it
+	// half-closes or aborts)
+	if r.Chance(1, 3) || inflight && r.Bool() || abortive && r.Bool() {
+		from := first
+		if how1 == "abort" || how1 == "half" && r.Bool() {
+			from = second
+		}
+		ops = append(ops, traffic(r, tier, from, true, inflight && r.Bool() || r.Chance(1, rare)))
+	}
+	ops = append(ops, "close "+first+" "+how1)
+	how2 := r.Pick("half", "full")
+	switch how1 {
+	case "half":
+		if inflight {
+			maybeSlow(2)
+		}
+		// the other direction stays usable after a half-close
+		if r.Chance(2, 3) || inflight {
+			if r.Chance(1, 3) {
+				ops = append(ops, traffic(r, tier, second, false, false))
+			}
+			push := inflight || r.Chance(1, 3)
+			ops = append(ops, traffic(r, tier, second, push, inflight || r.Chance(1, rare)))
+		}
+		if r.Chance(1, 12) {
+			how2 = "abort"
+		}
+	default:
+		// the first end is gone: the other one may keep writing for a while
+		if r.Chance(1, 2) {
+			ops = append(ops, fmt.Sprintf("sendgone %s %d %d", second, r.Pick2(r.Range(8, 200), r.Range(200, 70000)), r.Intn(1<<30)))
+			if r.Chance(1, 3) {
+				ops = append(ops, "end")
+				return ops
+			}
+		}
+	}
+	ops = append(ops, "close "+second+" "+how2)
 	if how1 == "half" && r.Bool() {
-		ops = append(ops, "close "+first+" full")
+		ops = append(ops, "close "+first+" "+r.Pick("full", "full", "abort"))
 	}
 	ops = append(ops, "end")
 	return ops
@@ -894,15 +1289,35 @@ func (P) Gen(r *core.Rand, tier string, emit0 func(ops []string)) {
 					continue
 				}
 				banner := []int{0, 10, 700, 0, 3000}[(ei+li)%5]
-				emit(genCase(r.Fork(), tier, ro, l, r.Pick("tcp", "plain"), early, banner))
+				emit(genCase(r.Fork(), tier, ro, l, r.Pick("tcp", "plain"), early, banner, ""))
 			}
 		}
 	}
-	n := 220
-	if tier == "thorough" {
-		n = 2500
+	// the whole matrix route x listener kind x dial kind, once per schedule class in thorough; in quick
+	// the abortive class on the whole matrix and the in-flight class (MiBs, ~0.3 s each) on a diagonal
+	tgts := []string{"tcp", "plain"}
+	k, diag := 0, r.Intn(5)
+	for _, ro := range routes {
+		for _, l := range lsts {
+			for _, tg := range tgts {
+				k++
+				emit(genCase(r.Fork(), tier, ro, l, tg, earlySizes[k%len(earlySizes)], 0, "abort"))
+				if tier == "thorough" || k%5 == diag {
+					emit(genCase(r.Fork(), tier, ro, l, tg, 0, 0, "inflight"))
+				}
+			}
+		}
 	}
-	for i := 0; i < n; i++ {
+	n, nIn := 220, 4
+	if tier == "thorough" {
+		n, nIn = 2200, 250
+		// the open finding (a busy tunnel older than the proxy's timeout) on other listener kinds and chunk sizes
+		for _, l := range []string{"plain", "tls"} {
+			emit([]string{fmt.Sprintf("open direct %s %s 0 0 %d %d 2500", l, r.Pick("tcp", "plain"), r.Intn(256), r.Intn(256)),
+				fmt.Sprintf("outlive %d %d", r.Range(1, 4096), r.Intn(1<<30)), "close t " + r.Pick("half", "full"), "end"})
+		}
+	}
+	for i := 0; i < n+nIn; i++ {
 		early := earlySizes[r.Intn(len(earlySizes))]
 		if r.Chance(1, 4) {
 			early = r.Range(0, 6000)
@@ -911,6 +1326,12 @@ func (P) Gen(r *core.Rand, tier string, emit0 func(ops []string)) {
 		if r.Chance(1, 2) {
 			banner = r.Pick2(r.Range(1, 100), r.Range(100, 3500))
 		}
-		emit(genCase(r.Fork(), tier, routes[r.Intn(3)], lsts[r.Intn(3)], r.Pick("tcp", "plain"), early, banner))
+		class := ""
+		if i >= n {
+			class = "inflight"
+		} else if r.Chance(1, 8) {
+			class = "abort"
+		}
+		emit(genCase(r.Fork(), tier, routes[r.Intn(3)], lsts[r.Intn(3)], r.Pick("tcp", "plain"), early, banner, class))
 	}
 }
